@@ -608,6 +608,15 @@ func (prop c10) Execute(sc *sim.Scenario) *sim.Outcome {
 	if mode > 0 {
 		nsteps := len(baseSc.Steps)
 		between := false
+		// quick tier: at most ~150 placements per program (every stride-th one,
+		// deterministically) so that one large program cannot eat the budget
+		stride, count := 1, 0
+		if mode == 1 {
+			est := len(base.cross) * (2 + len(base.bpSteps))
+			if est > 150 {
+				stride = (est + 149) / 150
+			}
+		}
 		for k, cr := range base.cross {
 			// instants
 			var instants []int
@@ -632,6 +641,11 @@ func (prop c10) Execute(sc *sim.Scenario) *sim.Outcome {
 					continue
 				}
 				seen[j] = true
+				count++
+				if stride > 1 && count%stride != 0 {
+					out.Probes["placements-skipped-by-quick-cap"]++
+					continue
+				}
 				// probe: is there a later backprop whose graph contains this call's result?
 				if out0 := baseSc.Steps[cr.step].Out; out0 >= 0 {
 					for _, b := range base.bpSteps {
@@ -678,6 +692,12 @@ func (c10) Generate(r *sim.Rand, tier string) *sim.Scenario {
 	sim.SeedLibraryRNG(uint64(sc.Cfg["rngseed"]))
 	o := genOpts{MaxElems: 36, MaxRank: 4, MaxDim: 3, Comparison: false, PSynth: 0.3, PTracked: 0.8,
 		Weights: map[string]int{"reshape": 4, "broadcast": 3, "slice": 5, "patch": 5, "concat": 4, "unary": 1, "scale": 2, "pow": 1, "shape": 2, "along": 2, "arith": 3, "elmm": 1, "dot": 1, "matmul": 1}}
+	switch r.Intn(8) { // size swarm
+	case 0:
+		o.MaxDim, o.MaxElems = 17, 90
+	case 1:
+		o.MaxRank = 6
+	}
 	shapes := map[int][]int{}
 	var order []int
 	add := func(st sim.Step) bool {
@@ -715,7 +735,7 @@ func (c10) Generate(r *sim.Rand, tier string) *sim.Scenario {
 		return a
 	}
 	newLeaf := func() {
-		shape := randShape(r, 4, 3, 27)
+		shape := randShape(r, 4, minInt(o.MaxDim, 9), 27+o.MaxDim)
 		st := sim.Step{Out: ids.New(), B: r.Bool(0.8), I: cpI(shape)}
 		switch r.Intn(8) {
 		case 0:
